@@ -2190,7 +2190,19 @@ class PrepareAst:
                         if first_target is None:
                             first_target = target
 
-            result_statements.append(self.apply(inp.body))
+            try:
+                result_statements.append(self.apply(inp.body))
+            except BaseException as err:
+                # The body was rejected. Leave compile time context managers
+                # (for example std.prefix) like Python would, so their global
+                # state does not leak into later compilations.
+                for context, fn in exit_list[::-1]:
+                    if _is_intrinsic(fn):
+                        try:
+                            fn(context, type(err), err, err.__traceback__)
+                        except Exception:
+                            pass
+                raise
 
             for context, fn in exit_list[::-1]:
                 returns_always = 0
